@@ -22,7 +22,7 @@
    The reference predicates (Entitled, RefStatus, ...) are written independently of the pipeline. *)
 EXTENDS Integers, Sequences, FiniteSets, TLC
 
-CONSTANTS Variant   \* "code" | "FailOpen" | "IgnoreAllow" | "HeaderFromAnyone" | "AskWithoutCredential" | "AliasOwnName"
+CONSTANTS Variant   \* "code" | "LastOfChain" | "RememberPrior" | "FailOpen" | "IgnoreAllow" | "HeaderFromAnyone" | "AskWithoutCredential" | "AliasOwnName"
                     \* | "ListHidden" | "Always403" | "AskForOpenEndpoints" | "AnyScheme"
 
 KeyNames == {"ka", "kb", "kc", "kh"}
@@ -40,8 +40,16 @@ Auths == {"none", "bearer", "bearer-lower", "basic", "bearer-empty"}
 \* how the request arrives: directly | through the trusted proxy (X-Forwarded-For set) | from a stranger who sends the
 \* proxy's headers
 Vias == {"direct", "proxy", "fakeproxy"}
-TlsCerts == {"none", "c1"}
-HdrCerts == {"none", "c2", "bad"}
+\* certificates: c1 / c2 alone, or a chain whose FIRST entry is the caller's own certificate (the only one the TLS handshake
+\* proves possession of) followed by somebody else's, which anybody can append
+TlsCerts == {"none", "c1", "c1c2"}
+HdrCerts == {"none", "c2", "c2c1", "bad"}
+Leaf(c) == CASE c = "c1c2" -> "c1" [] c = "c2c1" -> "c2" [] OTHER -> c
+\* requests do not influence one another: `conn` = "reused" means the very same request was already made once on this
+\* connection (same TLS state object); `prior` = "allowAll" means the request before it, from somebody else, was
+\* allowed everything (subject mallory, every role, every key, claims and decision id of its own)
+Conns == {"fresh", "reused"}
+Priors == {"none", "allowAll"}
 
 \* what the policy answers
 \*   allow        allow = true with roles / allowed_keys
@@ -57,7 +65,7 @@ PolErrors == {"http500", "reset", "badjson"}
 RoleChoices == {{}, {"r1"}}
 KeyChoices == {{}, {"kb"}, {"kc"}, {"kh"}, {"ka", "nosuch"}}
 
-VARIABLES req,      \* [ep, name, auth, via, tls, hdr]
+VARIABLES req,      \* [ep, name, auth, via, tls, hdr, conn, prior]
           pol,      \* [kind, roles, akeys]
           pc,       \* "recv" -> "collected" -> "asked" -> "decided" -> "done"
           tok, fp,  \* what Collect found
@@ -76,7 +84,8 @@ vars == <<req, pol, pc, tok, fp, asked, input, user, uroles, ukeys, status, touc
 Proxied(r) == r.via = "proxy"
 TrueTok(r) == IF r.auth \in {"bearer", "bearer-lower"} THEN "T1" ELSE ""
 TrueCert(r) == IF Proxied(r) THEN r.hdr ELSE r.tls
-TrueFp(r) == IF TrueCert(r) \in {"none", "bad"} THEN "" ELSE TrueCert(r)
+TrueFp(r) == IF TrueCert(r) \in {"none", "bad"} THEN "" ELSE Leaf(TrueCert(r))
+TrueChain(r) == IF TrueCert(r) = "bad" THEN "none" ELSE TrueCert(r)
 PathOf(r) == CASE r.ep = "sign" -> "/sign" [] r.ep = "getkey" -> "/keys/" \o r.name [] r.ep = "listkeys" -> "/list_keys"
                [] r.ep = "home" -> "/" [] r.ep = "health" -> "/health" [] OTHER -> "/directory"
 
@@ -110,11 +119,13 @@ PipeAllowedKey(n) ==
   IN k # "none" /\ ((IF Variant = "AliasOwnName" THEN n ELSE k) \in ukeys \/ uroles \cap Keys[k].roles # {})
 
 Init ==
-  /\ req \in [ep : Endpoints, name : ReqNames, auth : Auths, via : Vias, tls : TlsCerts, hdr : HdrCerts]
+  /\ req \in [ep : Endpoints, name : ReqNames, auth : Auths, via : Vias, tls : TlsCerts, hdr : HdrCerts, conn : Conns, prior : Priors]
+  /\ (req.conn = "reused" => (req.via = "direct" /\ req.tls # "none" /\ req.hdr = "none" /\ req.auth \in {"none", "bearer"}))
+  /\ (req.prior = "allowAll" => (req.via = "direct" /\ req.hdr = "none" /\ req.auth \in {"none", "bearer"} /\ req.conn = "fresh"))
   /\ (req.ep \notin {"sign", "getkey"} => req.name = "ka")      \* the name is part of sign and getkey requests only
   /\ pol \in [kind : PolKinds, roles : RoleChoices, akeys : KeyChoices]
   /\ (pol.kind # "allow" => pol.roles = {} /\ pol.akeys = {})   \* (deny answers carry fixed grants, see Decide)
-  /\ pc = "recv" /\ tok = "" /\ fp = "" /\ asked = FALSE /\ input = [path |-> "", key |-> "", token |-> "", fp |-> ""]
+  /\ pc = "recv" /\ tok = "" /\ fp = "" /\ asked = FALSE /\ input = [path |-> "", key |-> "", token |-> "", fp |-> "", chain |-> "none"]
   /\ user = "" /\ uroles = {} /\ ukeys = {} /\ status = 0 /\ touched = FALSE /\ listing = {} /\ auditSub = ""
 
 \* the open endpoints never reach the authenticator
@@ -128,7 +139,10 @@ Collect ==
   /\ IF PipeCert(req) = "bad"
        THEN status' = 500 /\ pc' = "done" /\ UNCHANGED <<tok, fp>>
        ELSE /\ tok' = PipeTok(req)
-            /\ fp' = IF PipeCert(req) = "none" THEN "" ELSE PipeCert(req)
+            /\ fp' = IF PipeCert(req) = "none" THEN ""
+                     ELSE IF Variant = "LastOfChain" /\ PipeCert(req) = "c1c2" THEN "c2"
+                     ELSE IF Variant = "LastOfChain" /\ PipeCert(req) = "c2c1" THEN "c1"
+                     ELSE Leaf(PipeCert(req))
             /\ IF tok' = "" /\ fp' = "" /\ Variant # "AskWithoutCredential"
                  THEN status' = 401 /\ pc' = "done"
                  ELSE status' = 0 /\ pc' = "collected"
@@ -137,7 +151,7 @@ Collect ==
 Ask ==
   /\ pc = "collected"
   /\ asked' = TRUE
-  /\ input' = [path |-> PathOf(req), key |-> IF req.ep = "sign" THEN req.name ELSE "", token |-> tok, fp |-> fp]
+  /\ input' = [path |-> PathOf(req), key |-> IF req.ep = "sign" THEN req.name ELSE "", token |-> tok, fp |-> fp, chain |-> PipeCert(req)]
   /\ pc' = "asked"
   /\ UNCHANGED <<req, pol, tok, fp, user, uroles, ukeys, status, touched, listing, auditSub>>
 
@@ -149,6 +163,8 @@ Decide ==
               ELSE status' = 500 /\ pc' = "done" /\ UNCHANGED <<user, uroles, ukeys>>
      ELSE IF pol.kind = "allow"
        THEN user' = "alice" /\ uroles' = pol.roles /\ ukeys' = pol.akeys /\ status' = 0 /\ pc' = "decided"
+     ELSE IF Variant = "RememberPrior" /\ pol.kind = "empty" /\ req.prior = "allowAll"
+       THEN user' = "mallory" /\ uroles' = {"r1", "r2"} /\ ukeys' = KeyNames /\ status' = 0 /\ pc' = "decided"
      ELSE IF Variant = "IgnoreAllow" /\ pol.kind # "empty"
        THEN user' = "alice" /\ uroles' = {"r1", "r2"} /\ ukeys' = KeyNames /\ status' = 0 /\ pc' = "decided"
      ELSE /\ status' = IF pol.kind \in {"denyExpired", "denyBoth"} /\ Variant # "Always403" THEN 401 ELSE 403
@@ -190,7 +206,7 @@ FailClosed == (Done /\ asked /\ pol.kind \in PolErrors) => (status = 500 /\ ~tou
 AskedOnlyWithCredential == asked => (~Open(req.ep) /\ (TrueTok(req) # "" \/ TrueFp(req) # ""))
 \* the policy judges the request that was made: path, key, the token as sent, the certificate that legitimately
 \* speaks for the caller
-InputFaithful == asked => (input.path = PathOf(req) /\ input.token = TrueTok(req) /\ input.fp = TrueFp(req)
+InputFaithful == asked => (input.path = PathOf(req) /\ input.token = TrueTok(req) /\ input.fp = TrueFp(req) /\ input.chain = TrueChain(req)
                             /\ input.key = IF req.ep = "sign" THEN req.name ELSE "")
 StatusRight == Done => status = RefStatus(req, pol)
 ListingExact == (Done /\ req.ep = "listkeys" /\ status = 200) => listing = {n \in KeyNames : ~Hidden(n) /\ Granted(pol, n)}
